@@ -383,6 +383,20 @@ func c16ConnGen(out *emit.Out, p params, r *rand.Rand) error {
 		in.ReadFrom = !in.ReadFrom
 		c16ConnAdd(out, "short-forged-records", in)
 	}
+	// every byte of the record header altered (type, version, epoch, sequence number, length), each followed by the untouched original
+	for k, su := range []uint16{0xe053, 0xe013} {
+		for _, rf := range []bool{false, true} {
+			in := c16ConnInput{Suite: su, Window: 64, ReadFrom: rf, N: 60, JunkSeed: r.Uint64()}
+			for pos := 0; pos < 13; pos++ {
+				for _, m := range []byte{1, 2, 0x80} {
+					i := pos*3 + int(m%3)
+					in.Items = append(in.Items, c16Item{Kind: "flip", I: i, Pos: pos, Mask: m}, c16Item{Kind: "gen", I: i})
+				}
+			}
+			_ = k
+			c16ConnAdd(out, "header-byte-altered", in)
+		}
+	}
 	// a short Read, then ReadFrom and Read in turn, with forged datagrams arriving in between
 	for k, su := range []uint16{0xe053, 0xe013} {
 		in := c16ConnInput{Suite: su, Window: 64, N: 10, JunkSeed: r.Uint64(), Tail: true,
